@@ -5,7 +5,7 @@ Units: `label.normalize` (real core_tokens.normalize_label vs the Lean model: ev
 singly, label spellings, random strings), `block.footnotes` (real Document.footnotes - keys,
 values and insertion order - vs `footnotesOf` of the generator's definitions in document order).
 Exploration: generated documents that place definitions at every kind of block boundary and
-nesting level, with duplicate / near-duplicate labels, all reference forms and title styles; the
+nesting level (alone or in runs of consecutive lines), with duplicate / near-duplicate labels, all reference forms and title styles; the
 oracle is the generator's own table.
 """
 import re
@@ -100,7 +100,11 @@ class Gen:
         rng = self.rng
         r = rng.random()
         if r < 0.28:
-            return self.definition(depth)
+            # a run of 1-3 definitions on directly consecutive lines (one Footnote.read call reads them all)
+            lines = self.definition(depth)
+            while rng.random() < 0.35 and len(lines) < 8:
+                lines += self.definition(depth)
+            return lines
         if depth < 3 and r < 0.42:
             inner = self.blocks(depth + 1, rng.randint(1, 3))
             return [('> ' + l) if l else '>' for l in inner]
@@ -195,6 +199,8 @@ def _cases(ctx):
                   'uses': [{'tag': 'use1', 'label': 'bar', 'form': 'full', 'image': False, 'src': '[use1][bar]', 'defined_family': True}]})
     cases.append({'text': '[foo]: /d1\n\n[Foo]: /d2\n\nw1 [use1][FOO] z\n', 'defs': [('foo', '/d1', ''), ('Foo', '/d2', '')],
                   'uses': [{'tag': 'use1', 'label': 'FOO', 'form': 'full', 'image': False, 'src': '[use1][FOO]', 'defined_family': True}]})
+    cases.append({'text': '[foo]: /d1\n[FOO]: /d2 "t2"\n[bar]: /d3\n\nw1 [use1][Foo] z\n', 'defs': [('foo', '/d1', ''), ('FOO', '/d2', 't2'), ('bar', '/d3', '')],
+                  'uses': [{'tag': 'use1', 'label': 'Foo', 'form': 'full', 'image': False, 'src': '[use1][Foo]', 'defined_family': True}]})
     cases.append({'text': '- [foo]: /d1\n\n* x\n\nw1 [foo] z\n', 'defs': [('foo', '/d1', '')],
                   'uses': [{'tag': 'use1', 'label': 'foo', 'form': 'shortcut', 'image': False, 'src': '[foo]', 'defined_family': True}]})
     return cases
